@@ -99,7 +99,13 @@ func (mod *Module) findIdentityBase(baseStr string) (*resolvedIdentity, []error)
 	case "", rootPrefix:
 		// This is a local identity which is defined within the current
 		// module
-		keyName := fmt.Sprintf("%s:%s", module(mod).Name, baseName)
+		owner := module(mod)
+		if owner == nil {
+			// A submodule whose module is not loaded.
+			errs = append(errs, fmt.Errorf("%s: can't resolve the local base %s: module %s is not loaded", source, baseStr, mod.BelongsTo.Name))
+			break
+		}
+		keyName := fmt.Sprintf("%s:%s", owner.Name, baseName)
 		base, ok = typeDict.identities.dict[keyName]
 		if !ok {
 			errs = append(errs, fmt.Errorf("%s: can't resolve the local base %s as %s", source, baseStr, keyName))
@@ -113,6 +119,10 @@ func (mod *Module) findIdentityBase(baseStr string) (*resolvedIdentity, []error)
 			break
 		}
 		// The identity we are looking for is modulename:basename.
+		if module(extmod) == nil {
+			errs = append(errs, fmt.Errorf("%s: can't resolve remote base %s", source, baseStr))
+			break
+		}
 		if id, ok := typeDict.identities.dict[fmt.Sprintf("%s:%s", module(extmod).Name, baseName)]; ok {
 			base = id
 			break
